@@ -87,6 +87,12 @@ type Upstream struct {
 	explicitlyFlushCh       chan (<-chan struct{})
 	explicitlyFlushResultCh chan error
 
+	// activeWrites counts the WriteDataPoints calls that are between their draining check and their
+	// hand-off to the flush loop; Close waits for them so that every write it let through is drained.
+	activeWritesMu   sync.Mutex
+	activeWrites     int
+	activeWritesIdle chan struct{}
+
 	closeTimeout time.Duration
 	sequence     *sequenceNumberGenerator
 
@@ -195,6 +201,13 @@ func (u *Upstream) waitToSendAllDataPointsAndReceiveAllAck(ctx context.Context) 
 	defer cancel()
 	parentCtx, cancel = context.WithTimeout(parentCtx, u.closeTimeout)
 	defer cancel()
+	// Writers that passed the draining check before the status changed may still be handing their
+	// points to the flush loop: let them finish, or the flush below misses points whose write returns nil.
+	select {
+	case <-u.writesIdle():
+	case <-parentCtx.Done():
+	case <-ctx.Done():
+	}
 	if err := u.Flush(ctx); err != nil {
 		return errors.Errorf("failed to flush chunk: %w", err)
 	}
@@ -261,8 +274,42 @@ func (u *Upstream) isClosed() bool {
 	}
 }
 
+func (u *Upstream) beginWrite() {
+	u.activeWritesMu.Lock()
+	u.activeWrites++
+	u.activeWritesMu.Unlock()
+}
+
+func (u *Upstream) endWrite() {
+	u.activeWritesMu.Lock()
+	u.activeWrites--
+	if u.activeWrites == 0 && u.activeWritesIdle != nil {
+		close(u.activeWritesIdle)
+		u.activeWritesIdle = nil
+	}
+	u.activeWritesMu.Unlock()
+}
+
+// writesIdle returns a channel that is closed once no WriteDataPoints call is in progress.
+func (u *Upstream) writesIdle() <-chan struct{} {
+	u.activeWritesMu.Lock()
+	defer u.activeWritesMu.Unlock()
+	if u.activeWrites == 0 {
+		ch := make(chan struct{})
+		close(ch)
+		return ch
+	}
+	if u.activeWritesIdle == nil {
+		u.activeWritesIdle = make(chan struct{})
+	}
+	return u.activeWritesIdle
+}
+
 // WriteDataPointsは、データポイントを内部バッファに書き込みます。
 func (u *Upstream) WriteDataPoints(ctx context.Context, dataID *message.DataID, dps ...*message.DataPoint) error {
+	// registered before the draining check: Close switches to draining first and then waits for the registered calls
+	u.beginWrite()
+	defer u.endWrite()
 	if u.isClosed() {
 		return errors.ErrStreamClosed
 	}
